@@ -119,6 +119,9 @@ PROPERTIES["C07"] = {
           "engine in Data phase, MAXMSGSIZE = any limit >= 28 (symbolic i64), one frame header with any flags/any 8- or 64-bit length: refused iff length > limit, nothing but the header buffered",
           budget={"quick": 120, "thorough": 300},
           required_covers=["c07.maxmsgsize.exact-limit-accepted", "c07.maxmsgsize.limit-plus-one-refused"]),
+        M("c07_handshake_interval", "d_c07", "handshake_deadline",
+          "tokio session actor, handshake loop of run_loop in region mode (from self.read_half.take() of the handshake block; apply_engine_output_handshake stubbed): a peer delivers one signature byte per read, each read finishing before the timer guarding it fires; HANDSHAKE_IVL symbolic (1 ms .. 1 h); timers are recording objects on a symbolic monotone clock shared with Instant::now(); 3 reads",
+          budget={"quick": 200, "thorough": 300}, required_covers=["c07.handshake-ivl.three-slow-reads"]),
         M("c07_curve_metadata", "d_c07", "curve_metadata",
           "CURVE (MIR dump built with --features curve,noise_xx): security::curve::handshake::decode_metadata on 0..12 arbitrary bytes - the parser every CURVE handshake command runs on peer bytes before any cryptographic check",
           budget={"quick": 200, "thorough": 300}, required_covers=["c07.curve-metadata.accepted", "c07.curve-metadata.refused"], features="full"),
@@ -130,9 +133,9 @@ PROPERTIES["C07"] = {
     "manifest": {
         "engine": "mirsym+kani",
         "technique": "symbolic execution of the engine's MIR (z3), one step from every protocol phase on arbitrary bytes; Kani/CBMC for the frame decoders over the full 64-bit length range",
-        "text": "Panic freedom and size bounds: from each phase (Greeting, Ready, Data with 0..255 pending MORE frames, v2 and v3) one on_network_bytes call with arbitrary bytes never panics, every fatal error closes the engine, Closed is absorbing; MAXMSGSIZE accepts exactly-limit and refuses limit+1 for every limit (engine level: limit >= 28, in the ZMTP/3 and ZMTP/2.0 Data phases; an over-limit announcement is also refused before READY and before the PLAIN HELLO/WELCOME; parser level via Kani: every i64) and refuses before buffering the body. CURVE: the metadata parser and the WELCOME / INITIATE command handlers return an error, never panic, on arbitrary peer bytes (feature curve).",
+        "text": "Panic freedom and size bounds: from each phase (Greeting, Ready, Data with 0..255 pending MORE frames, v2 and v3) one on_network_bytes call with arbitrary bytes never panics, every fatal error closes the engine, Closed is absorbing; MAXMSGSIZE accepts exactly-limit and refuses limit+1 for every limit (engine level: limit >= 28, in the ZMTP/3 and ZMTP/2.0 Data phases; an over-limit announcement is also refused before READY and before the PLAIN HELLO/WELCOME; parser level via Kani: every i64) and refuses before buffering the body. CURVE: the metadata parser and the WELCOME / INITIATE command handlers return an error, never panic, on arbitrary peer bytes (feature curve). Handshake interval (tokio session): every timer armed while the handshake is incomplete expires no later than HANDSHAKE_IVL after the handshake loop was entered, however the peer paces its bytes.",
         "design_ref": "DESIGN.md §5 C07",
-        "note": "NOT claimed: the handshake-interval timer, release of the connection slot, survival of the owning socket and its other connections, the io_uring handler (async runtime behaviour); PLAIN-phase robustness is exercised by the C06 driver; of CURVE only the command parsers in front of the cryptography are covered (metadata decoding, WELCOME cookie and INITIATE ciphertext framing; dryoc opaque), NOISE_XX parsers are not.",
+        "note": "NOT claimed: release of the connection slot after a handshake timeout, survival of the owning socket and its other connections, the io_uring handler (async runtime behaviour); PLAIN-phase robustness is exercised by the C06 driver; of CURVE only the command parsers in front of the cryptography are covered (metadata decoding, WELCOME cookie and INITIATE ciphertext framing; dryoc opaque), NOISE_XX parsers are not.",
     },
     "outside": "handshake timer, connection-slot release, socket survival (tokio actors); CURVE/NOISE parsers; io_uring handler",
 }
